@@ -200,7 +200,7 @@ inline void refenc(const Sch& s, const Val& v, Enc& e) {
     }
     case K::Hnd: {
       prefix(0xb7);
-      enc_uint(e, s.n, Role::HandleType);
+      enc_uint(e, s.n, Role::HandleType, s.w ? s.w : 8);
       int64_t hv = (int64_t)v.u;
       int64_t ref = e.href ? e.href(hv) : (hv < 0 ? -1 : e.next_ref++);
       enc_sint(e, ref, Role::HandleRef);
@@ -502,7 +502,7 @@ inline bool dec_payload(const Sch& s, uint8_t p, Dec& d, Val& out) {
     }
     case K::Hnd: {
       uint64_t t;
-      if (!dec_uint(d, 8, &t)) return false;
+      if (!dec_uint(d, s.w ? s.w : 8, &t)) return false;  // the tag is an integer of the policy's own tag type (R1: no wider class)
       if (t != s.n) return d.fail(Cat::HandleType);
       int64_t ref;
       if (!dec_sint(d, 8, &ref)) return false;
